@@ -110,3 +110,16 @@ Theorem C10_distinct_numbers_refuted_when_numbered_by_count :
   inside_ (hrun false [HEnter; HEnter; HLeave 0; HEnter]) = [2; 2] /\ inside_ (hrun true [HEnter; HEnter; HLeave 0; HEnter]) = [2; 3].
 Proof. exact refuted_numbered_by_count. Qed.
 Print Assumptions C10_distinct_numbers_refuted_when_numbered_by_count.
+
+(* ... and over the whole life of the activity no number is ever issued twice: the answer of a token that an interrupting
+   boundary event withdrew long ago can only find nobody ("even if the task is answered afterwards"). Stated for the
+   variant the sources show (src_token_counter_never_set_back: the counter is only ever incremented) *)
+Theorem C10_numbers_are_never_issued_twice : forall p, NoDup (issued2 (hrun2 (negb src_token_counter_never_set_back) p)).
+Proof. exact numbers_never_reused. Qed.
+Print Assumptions C10_numbers_are_never_issued_twice.
+(* a counter that starts again whenever the activity is empty: enter, withdrawn, enter -- the second token gets the
+   number of the withdrawn one, whose late answer is then taken for the second token's *)
+Theorem C10_late_answer_refuted_when_the_counter_is_set_back :
+  issued2 (hrun2 true [HEnter; HLeave 0; HEnter]) = [1; 1] /\ issued2 (hrun2 false [HEnter; HLeave 0; HEnter]) = [1; 2].
+Proof. exact refuted_counter_set_back. Qed.
+Print Assumptions C10_late_answer_refuted_when_the_counter_is_set_back.
